@@ -233,7 +233,9 @@ def cosimChunk (st : DState) (toks : List String) : DState × String :=
         if me != effs then (st', "mismatch effects model=" ++ " ".intercalate me ++ " impl=" ++ " ".intercalate effs)
         else if men != ien then (st', "mismatch enabled model=" ++ men ++ " impl=" ++ ien)
         else if msnap != snap then (st', "mismatch snapshot model=" ++ gsnap st' ++ " impl=" ++ (Hex.toStr? snap).getD "?")
-        else (st', "ok")
+        else match ginvFail st' with
+          | some c => (st', "mismatch invariant-clause-false " ++ c)
+          | none => (st', "ok")
   | _ => (st, "bad-op")
 
 def stepState (ds : DriverState) (line : String) : DriverState × String :=
